@@ -175,15 +175,18 @@ def run(ck):
             ck.verdict(bad is None, "3", "T2-all-exits", b, "always:Poller::%s" % pm, "every path performs the poller call", "a path through %s skips the poller call" % q, site=b.where(cs.bb))
             ck.verdict(T.resolves_to_arg(b, cs.args[1], 2) or T.tainted_by_call(b, cs.args[1], [c.bb for c in T.calls(b, name=("as_fd", "as_raw_fd"))]), "3", "T6-provenance", b, "fd-is-the-parameter", "the fd given to the poller is the fd parameter", "the fd given to the poller is not derived from the fd parameter", site=b.where(cs.bb))
             if pm != "delete":
-                cv = [c.bb for c in T.calls(b, name="cvt_interest")]
+                ebld = common.event_builder(f)
+                ev_calls = [c for c in b.calls() if ebld is not None and c.callee_body() is ebld[0] and not b.is_cleanup(c.bb)]
+                cv = [c.bb for c in ev_calls]
                 conv = common.mode_converter(f)
                 conv_calls = [c for c in b.calls() if conv is not None and c.callee_body() is conv[0] and not b.is_cleanup(c.bb)]
                 cm = [c.bb for c in conv_calls]
-                ck.verdict(bool(cv) and T.resolves_to_call(b, cs.args[2], cv), "3", "T6-provenance", b, "event-from-cvt_interest", "the poller event is cvt_interest(interest, token)", "the poller event is not the translated interest/token", site=b.where(cs.bb))
+                inlined_ev = ebld is not None and ebld[0].key in b.raw.get("inlined", [])
+                ck.verdict((bool(cv) and T.resolves_to_call(b, cs.args[2], cv)) or inlined_ev, "3", "T6-provenance", b, "event-from-cvt_interest", "the poller event is cvt_interest(interest, token)", "the poller event is not the translated interest/token", site=b.where(cs.bb))
                 inlined_conv = conv is not None and conv[0].key in b.raw.get("inlined", []) and all(r[0] == "agg" and b.agg_at(r[1], r[2]).get("adt", "").endswith("PollMode") for r, p_ in b.resolve(cs.args[3]))
                 ck.verdict((bool(cm) and T.resolves_to_call(b, cs.args[3], cm)) or inlined_conv, "3", "T6-provenance", b, "mode-from-cvt_mode", "the poll mode is cvt_mode(mode, ..)", "the poll mode is not the translated mode", site=b.where(cs.bb))
-                for c in T.calls(b, name="cvt_interest"):
-                    ck.verdict(T.resolves_to_arg(b, c.args[0], 3) and T.resolves_to_arg(b, c.args[1], 5), "3", "T6-provenance", b, "cvt_interest(own interest, own token)", "translates the function's own interest and token", "cvt_interest is not applied to the function's own interest/token parameters", site=b.where(c.bb))
+                for c in ev_calls:
+                    ck.verdict(T.resolves_to_arg(b, c.args[ebld[1] - 1], 3) and T.resolves_to_arg(b, c.args[ebld[2] - 1], 5), "3", "T6-provenance", b, "cvt_interest(own interest, own token)", "translates the function's own interest and token", "cvt_interest is not applied to the function's own interest/token parameters", site=b.where(c.bb))
                 for c in conv_calls:
                     ck.verdict(T.resolves_to_arg(b, c.args[conv[1] - 1], 4), "3", "T6-provenance", b, "cvt_mode(own mode)", "translates the function's own mode", "cvt_mode is not applied to the function's own mode parameter", site=b.where(c.bb))
         mapcalls = [cs for cs in T.calls(b, name=maps) if T.path_has(b, cs.args[0], ".level_triggered")]
